@@ -101,8 +101,63 @@ def _parse_model(txt):
     return model
 
 
+def index_cases(ob, max_splits=2):
+    """Case analysis on equalities between integer constants that guard if-then-else terms (generic index == loop counter, ...):
+    [(extra hypotheses, substitution)] covering all cases, or None when there is nothing to split on.  In the equal case the constant is
+    substituted, which makes the two sides of 'updated cell == specified cell' syntactically close."""
+    goal = ob.goal if T.is_sym(ob.goal) else None
+    if goal is None:
+        return None
+    conds = []
+    seen = set()
+    for u in T.subterms(goal).values():
+        if z3.is_app(u) and u.decl().kind() == z3.Z3_OP_ITE:
+            c = u.arg(0)
+            if z3.is_eq(c) and z3.is_const(c.arg(0)) and z3.is_const(c.arg(1)) and c.arg(0).sort() == z3.IntSort() \
+                    and c.arg(0).decl().kind() == z3.Z3_OP_UNINTERPRETED and c.arg(1).decl().kind() == z3.Z3_OP_UNINTERPRETED and c.get_id() not in seen:
+                seen.add(c.get_id())
+                conds.append(c)
+    if not conds:
+        return None
+    conds = conds[:max_splits]
+    cases = [([], [])]
+    for c in conds:
+        new = []
+        for hy, sub in cases:
+            new.append((hy, sub + [(c.arg(0), c.arg(1))]))
+            new.append((hy + [z3.Not(c)], sub))
+        cases = new
+    return cases
+
+
+def case_smt2(ob, hy, sub):
+    import copy
+    ob2 = copy.copy(ob)
+
+    def ap(e):
+        if not T.is_sym(e):
+            return e
+        return z3.simplify(z3.substitute(e, *sub)) if sub else e
+    ob2.goal = ap(ob.goal)
+    ob2.hyps = [ap(h) for h in ob.hyps] + [ap(h) for h in hy]
+    ob2.assumptions = [ap(h) for h in ob.assumptions]
+    return obligation_smt2(ob2)
+
+
 def _solve_smt2(args):
-    name, smt2, timeout_s, want_model = args
+    name, smt2, timeout_s, want_model = args[:4]
+    cases = args[4] if len(args) > 4 else None
+    if cases:
+        # stage 1: short direct attempt; stage 2: index case analysis (every case must be proved); stage 3: full direct attempt
+        t0 = time.time()
+        r = _solve_smt2((name, smt2, min(timeout_s, 4), want_model, None, True))
+        if r[1] != "unknown":
+            return r
+        outs = [_solve_smt2((name, c, timeout_s, False)) for c in cases]
+        if all(o[1] == "proved" for o in outs):
+            return (name, "proved", "index-cases(" + "+".join(sorted({o[2] for o in outs})) + ")", time.time() - t0, None, None)
+        r = _solve_smt2((name, smt2, timeout_s, want_model))
+        return (r[0], r[1], r[2], time.time() - t0, r[4], r[5])
     t0 = time.time()
     with tempfile.NamedTemporaryFile("w", suffix=".smt2", delete=False, dir=os.environ.get("TMPDIR", "/tmp")) as f:
         f.write(smt2)
@@ -116,7 +171,7 @@ def _solve_smt2(args):
     reasons = []
     try:
         budgets = [timeout_s, max(5, timeout_s // 2), max(5, timeout_s // 3)]
-        for (label, mk), budget in zip(SOLVERS, budgets):
+        for (label, mk), budget in list(zip(SOLVERS, budgets))[:1 if (len(args) > 5 and args[5]) else None]:
             st, dt, reason, model_txt = _run_solver(label, mk(path_cvc5 if "cvc5" in label else path, budget), budget)
             if st == "unsat":
                 return (name, "proved", label, time.time() - t0, None, None)
@@ -147,18 +202,25 @@ def discharge(obligations, timeout_s=None, jobs=None, want_model=True):
         except Exception as e:
             pre[i] = Result(ob.name, "unknown", "encode", 0.0, reason=f"encoding failed: {e}", kind=ob.kind, meta=ob.meta)
             continue
-        tasks.append((i, ob, smt2))
+        cases = None
+        try:
+            cs = index_cases(ob)
+            if cs:
+                cases = [case_smt2(ob, hy, sub) for hy, sub in cs]
+        except Exception:
+            cases = None
+        tasks.append((i, ob, smt2, cases))
     results = dict(pre)
     if tasks:
         jobs = jobs or min(16, max(1, len(tasks)))
-        args = [(ob.name, smt2, timeout_s, want_model) for (_, ob, smt2) in tasks]
+        args = [(ob.name, smt2, timeout_s, want_model, cases) for (_, ob, smt2, cases) in tasks]
         if jobs == 1 or len(tasks) == 1:
             outs = [_solve_smt2(a) for a in args]
         else:
             from concurrent.futures import ThreadPoolExecutor
             with ThreadPoolExecutor(max_workers=jobs) as pool:
                 outs = list(pool.map(_solve_smt2, args))
-        for (i, ob, smt2), (name, status, backend, dt, model, reason) in zip(tasks, outs):
+        for (i, ob, smt2, _cases), (name, status, backend, dt, model, reason) in zip(tasks, outs):
             results[i] = Result(name, status, backend, dt, model=model, smt2=smt2, reason=reason, kind=ob.kind, meta=ob.meta)
     return [results[i] for i in range(len(obligations))]
 
